@@ -78,7 +78,7 @@ def run_model(model, cases, timeout=3000):
 MODEL_MAX_CASE = 120000     # description bytes above which the (quadratic) model is not run
 
 
-def run_all(exes, cases, jobs=4):
+def run_all(exes, cases, jobs=4, which=('raw', 'cmpr', 'model')):
     """-> (raw results, compressed results, model results), the three programs run concurrently and the
     model additionally on `jobs` interleaved slices"""
     from concurrent.futures import ThreadPoolExecutor
@@ -87,12 +87,13 @@ def run_all(exes, cases, jobs=4):
     k = max(1, min(jobs - 1, n // 8)) if n > 1 else 1
     # big cases dominate: deal the cases round-robin after sorting by size
     order = sorted([i for i in range(n) if len(cases[i]) <= MODEL_MAX_CASE], key=lambda i: -len(cases[i]))
-    slices = [order[j::k] for j in range(k)]
+    slices = [sl for sl in (order[j::k] for j in range(k)) if sl] if 'model' in which else []
     with ThreadPoolExecutor(max_workers=jobs + 1) as ex:
-        f1 = ex.submit(run, raw, cases)
-        f2 = ex.submit(run, cmpr, cases)
+        f1 = ex.submit(run, raw, cases) if 'raw' in which else None
+        f2 = ex.submit(run, cmpr, cases) if 'cmpr' in which and cmpr != raw else None
         fm = [ex.submit(run_model, model, [cases[i] for i in sl]) for sl in slices]
-        r1, r2 = f1.result(), f2.result()
+        r1 = f1.result() if f1 else [{'SKIPPED': '1'} for _ in range(n)]
+        r2 = f2.result() if f2 else (r1 if cmpr == raw else [{'SKIPPED': '1'} for _ in range(n)])
         rm = [{'SKIPPED': '1'} for _ in range(n)]
         for sl, f in zip(slices, fm):
             rc, lines, err = f.result()
